@@ -159,6 +159,9 @@ def _lambda_depth(n, d=0):
     return best
 
 
+_SHARED = None
+
+
 def semantic_check(case, r: Result, allow_index_error=False, total=False):
     """shared by C02 / C14 / C18: returns (tree, result tree or None, expect)"""
     from func_adl.ast.function_simplifier import FuncADLIndexError, simplify_chained_calls
@@ -171,8 +174,18 @@ def semantic_check(case, r: Result, allow_index_error=False, total=False):
         expect = None
         r.ref_error = True
     work = copy.deepcopy(tree)
+    # a backend may keep one transformer object for all its queries: every other case goes through an instance that has been used before
+    global _SHARED
+    if len(case["src"]) % 2 == 0:
+        if _SHARED is None:
+            _SHARED = simplify_chained_calls()
+            _SHARED.visit(ast.parse("Select(ds, lambda e: e.x)", mode="eval").body)
+        simplifier = _SHARED
+        r.labels.append("simplifier-instance-used-before")
+    else:
+        simplifier = simplify_chained_calls()
     try:
-        out = simplify_chained_calls().visit(work)
+        out = simplifier.visit(work)
     except FuncADLIndexError as e:
         # a variable index into a tuple/list literal can become a constant beyond the end once an argument is substituted
         # for it: then the simplifier's dedicated index error is its documented (C18) behaviour, not a failure
